@@ -415,6 +415,10 @@ class FakeSocket:
     def _expireat(self, key, timestamp):
         if not key:
             return 0
+        elif timestamp <= self._db.time:
+            # A deadline that is not in the future deletes the key at once
+            key.value = None
+            return 1
         else:
             key.expireat = timestamp
             return 1
